@@ -210,3 +210,54 @@ def check(ctx):
     # the decision returned by mpi_callback must be the inner callback's decision on every rank and
     # in every mode (otherwise the run depends on the mode: silent never asks for the rank)
     share(ctx, 'C12', 'R4/C12.', ['R4.'])
+
+    # ---------------------------------------------------------------- R5 printing stays in range
+    # every checked element access (.at / .front / .back) made while printing must be in range for
+    # every state a run can reach: an exception in a verbose mode aborts a run that the silent
+    # modes complete.  Preconditions: the callback is called after chkpt.add (>= 1 result), a
+    # multi-channel integrand has >= 1 channel.
+    from .. import ranges
+    targets = [(f, set()) for f in instances(p, 'hep::multi_channel_summary')] + \
+        [(f, set(CB_OPAQUE)) for f in instances(p, 'hep::callback::operator()')]
+    nacc = 0
+    for f, opq in targets:
+        ctx.analysed(f)
+
+        def r5(f=f, opq=opq):
+            nonlocal nacc
+            s, ex = summarise(p, f, opaque=opq, record_access=True)
+            pm = ranges.prefix_subst(s.loops)
+
+            def sb(t):
+                return T.subst(t, pm) if isinstance(t, tuple) else t
+            acc = [(dict(e, index=sb(e['index']), size=sb(e['size']), pc=tuple(sb(c) for c in e['pc'])),
+                    [{'idx': x['idx'], 'lo': sb(x['lo']), 'hi': sb(x['hi']),
+                      'pc': tuple(sb(c) for c in x.get('pc', ()))} for x in l])
+                   for e, l in flat_effects(s.effects) if e['kind'] == 'access']
+            if any(x['lo'] is None or x['hi'] is None for e, l in acc for x in l):
+                acc2 = []
+                for e, l in acc:
+                    if any(x['lo'] is None or x['hi'] is None for x in l):
+                        ctx.broken('R5.print_in_range', '%s:%s' % (e['where'], f.name), 'the access is inside a loop '
+                                   'that is not a counting loop: its index range is not decided')
+                    else:
+                        acc2.append((e, l))
+                acc = acc2
+            seen = set()
+            for r in ranges.check_accesses(acc):
+                key = (r['where'], r['how'], r['index'])
+                if key in seen:
+                    continue
+                seen.add(key)
+                nacc += 1
+                w = '%s:%s' % (r['where'], f.name)
+                if r['verdict'] == 'holds-bounded':
+                    ctx.holds('R5.print_in_range', w, '%s(%s): %s' % (r['how'], T.pretty(r['index'])[:60], r['detail']))
+                elif r['verdict'] == 'violation':
+                    ctx.violation('R5.print_in_range', w, '%s(%s) can be out of range while printing: %s; the '
+                                  'exception aborts a run in a printing mode that the silent modes complete'
+                                  % (r['how'], T.pretty(r['index'])[:120], r['detail']), r.get('witness'))
+                else:
+                    ctx.broken('R5.print_in_range', w, '%s(%s): %s' % (r['how'], T.pretty(r['index'])[:80], r['detail']))
+        ctx.guard('R5', fsite(f), r5)
+    ctx.count('checked element accesses in the printing code', nacc, 6)
